@@ -769,3 +769,132 @@ Proof.
   - intros Hs m Hm Hg. eapply udp_genuine_returned; eauto.
   - intros Hi. apply passes_snoc; auto.
 Qed.
+
+(* ------------------------------------------------------------------ *)
+(* errors are raised only as configured, for ALL scripts                *)
+
+Lemma matches_destination_lib af from dest iu e :
+  matches_destination af from dest iu = Lib e ->
+  e = neUnexpectedSource /\ iu = false /\ ~ src_ok af from dest.
+Proof.
+  intros H. assert (H' := H). unfold matches_destination in H. destruct dest as [d|]; [|discriminate].
+  destruct (addresses_equal af from d) as [[|]| |] eqn:E; cbn [bind] in H; try discriminate.
+  - destruct (is_multicast d) as [[|]| |] eqn:M; cbn [bind andb] in H; try discriminate.
+    + destruct (zlist_eqb (a_rest from) (a_rest d)); [discriminate|].
+      destruct iu; [discriminate|]. inversion H; subst. split; auto. split; auto.
+      eapply matches_destination_reject. right. exact H'.
+    + destruct iu; [discriminate|]. inversion H; subst. split; auto. split; auto.
+      eapply matches_destination_reject. right. exact H'.
+    + exfalso. eapply is_multicast_not_lib; eauto.
+  - exfalso. eapply addresses_equal_not_lib; eauto.
+Qed.
+
+Lemma from_wire_trunc_inv a it rot m :
+  from_wire_out a it rot = PTrunc m -> rot = true /\ m = p_msg a /\ has_tc m = true /\ p_short a = false.
+Proof.
+  destruct rot; [|intros H; exfalso; eapply from_wire_no_trunc; eauto].
+  unfold from_wire_out. destruct (p_short a); [discriminate|].
+  destruct (p_err a) as [e|].
+  - destruct (is_formerr e && has_tc (p_msg a) && true) eqn:C; [|discriminate].
+    intros H. inversion H; subst. rewrite andb_true_r in C. apply andb_true_iff in C. tauto.
+  - destruct (negb it && p_trailing a).
+    + destruct (is_formerr neTrailingJunk && has_tc (p_msg a) && true) eqn:C; [|discriminate].
+      intros H. inversion H; subst. rewrite andb_true_r in C. apply andb_true_iff in C. tauto.
+    + destruct (has_tc (p_msg a) && true) eqn:C; [|discriminate].
+      intros H. inversion H; subst. rewrite andb_true_r in C. tauto.
+Qed.
+
+Section UdpErrors.
+  Variable parse : list Z -> pabs.
+  Variables (af : Z) (dest : option addr) (expiration : option Z) (o : uopts) (query : option msg).
+
+  Notation recv := (receive_udp parse af dest expiration o query).
+  Notation fw w := (from_wire_out (parse w) (o_ignore_trailing o) (o_raise_on_truncation o)).
+
+  (* why a documented exception came out of receive_udp *)
+  Definition raised_as_configured (e : Z) (wire : list Z) (from : addr) : Prop :=
+    (e = neUnexpectedSource /\ o_ignore_unexpected o = false /\ ~ src_ok af from dest)
+    \/ (src_ok af from dest /\ e = neTruncated /\ o_raise_on_truncation o = true /\
+        has_tc (p_msg (parse wire)) = true /\ fw wire = PTrunc (p_msg (parse wire)) /\
+        (o_ignore_errors o = true -> forall q, query = Some q -> genuine q (p_msg (parse wire))))
+    \/ (src_ok af from dest /\ o_ignore_errors o = false /\ fw wire = PErr e).
+
+  Theorem receive_udp_error_sound : forall evs now i j e,
+    recv evs now i = (j, Lib e) ->
+    (e = neTimeout /\ expiration <> None) \/
+    exists pre wire from rest, evs = pre ++ UData wire from :: rest /\ j = (i + length pre + 1)%nat /\
+                               raised_as_configured e wire from.
+  Proof.
+    induction evs as [|ev evs IH]; intros now i j e H.
+    - cbn [receive_udp] in H. left.
+      destruct (wait_for now expiration None) as [x|e'|e'] eqn:W; inversion H; subst.
+      split; [eapply wait_for_never_ok_value; eauto|].
+      intros ->. cbn in W. discriminate.
+    - destruct ev as [w f|dt]; cbn [receive_udp] in H.
+      + destruct (matches_destination af f dest (o_ignore_unexpected o)) as [[|]|e'|e'] eqn:Em.
+        * assert (Hs : src_ok af f dest) by (eapply matches_destination_sound; eauto).
+          destruct (fw w) as [m'|m'|e'] eqn:Ep.
+          -- destruct (o_ignore_errors o &&
+                       match query with Some q => negb (is_response q m') | None => false end) eqn:Ei.
+             ++ apply IH in H. destruct H as [H|(pre & w1 & f1 & r1 & -> & -> & H)]; [left; auto|].
+                right. exists (UData w f :: pre), w1, f1, r1. cbn [app length]. split; auto. split; [lia|auto].
+             ++ inversion H.
+          -- destruct (o_ignore_errors o &&
+                       match query with Some q => negb (is_response q m') | None => false end) eqn:Ei.
+             ++ apply IH in H. destruct H as [H|(pre & w1 & f1 & r1 & -> & -> & H)]; [left; auto|].
+                right. exists (UData w f :: pre), w1, f1, r1. cbn [app length]. split; auto. split; [lia|auto].
+             ++ inversion H; subst. right. exists [], w, f, evs. cbn [app length]. split; auto. split; [lia|].
+                right. left. destruct (from_wire_trunc_inv _ _ _ _ Ep) as (Hrot & Hm & Htc & _). subst m'.
+                split; auto. split; auto. split; auto. split; auto. split.
+                { exact Ep. }
+                intros Hie q Hq. rewrite Hie, Hq in Ei. cbn [andb] in Ei.
+                apply is_response_iff. destruct (is_response q (p_msg (parse w))); [reflexivity|discriminate Ei].
+          -- destruct (o_ignore_errors o) eqn:Hie.
+             ++ apply IH in H. destruct H as [H|(pre & w1 & f1 & r1 & -> & -> & H)]; [left; auto|].
+                right. exists (UData w f :: pre), w1, f1, r1. cbn [app length]. split; auto. split; [lia|auto].
+             ++ unfold err_res in H. destruct (e' <? 20); inversion H; subst.
+                right. exists [], w, f, evs. cbn [app length]. split; auto. split; [lia|].
+                right. right. auto.
+        * apply IH in H. destruct H as [H|(pre & w1 & f1 & r1 & -> & -> & H)]; [left; auto|].
+          right. exists (UData w f :: pre), w1, f1, r1. cbn [app length]. split; auto. split; [lia|auto].
+        * inversion H; subst. apply matches_destination_lib in Em. destruct Em as (-> & Hiu & Hs).
+          right. exists [], w, f, evs. cbn [app length]. split; auto. split; [lia|]. left. auto.
+        * inversion H.
+      + destruct (wait_for now expiration dt) as [now'|e'|e'] eqn:W.
+        * apply IH in H. destruct H as [H|(pre & w1 & f1 & r1 & -> & -> & H)]; [left; auto|].
+          right. exists (UBlock dt :: pre), w1, f1, r1. cbn [app length]. split; auto. split; [lia|auto].
+        * inversion H; subst. left. split; [eapply wait_for_never_ok_value; eauto|].
+          intros ->. cbn in W. destruct dt; discriminate.
+        * inversion H.
+  Qed.
+End UdpErrors.
+
+(* the same for the whole exchange: every documented exception udp() raises is justified by the
+   configuration and by the datagram at the position reported (or is the deadline) *)
+Theorem udp_error_sound (parse : list Z -> pabs) q qwire where_ timeout af o evs now i e :
+  udp parse q qwire where_ timeout af o [] evs now = (i, Lib e) ->
+  (e = neTimeout /\ timeout <> None) \/
+  exists pre wire from rest, evs = pre ++ UData wire from :: rest /\ i = (length pre + 1)%nat /\
+    ( raised_as_configured parse af (Some where_) o (Some q) e wire from
+      \/ (e = neBadResponse /\ o_ignore_errors o = false /\ src_ok af from (Some where_) /\
+          exists m, from_wire_out (parse wire) (o_ignore_trailing o) (o_raise_on_truncation o) = POk m
+                    /\ ~ genuine q m) ).
+Proof.
+  unfold udp. destruct (negb (where_valid where_)); [intros H; inversion H|].
+  cbn [udp_send].
+  destruct (compute_times now timeout) as [begin_time expiration] eqn:Ct.
+  destruct (receive_udp parse af (Some where_) expiration o (Some q) evs now 0) as [j [x|e'|e']] eqn:E.
+  - destruct x as [[[[r0 w0] t0] f0] rest0].
+    destruct (negb (o_ignore_errors o || is_response q r0)) eqn:Ec; [|intros H; inversion H].
+    intros H. inversion H; subst. right.
+    apply receive_udp_ok in E. destruct E as (pre & -> & -> & Hm & Hp & _).
+    exists pre, w0, f0, rest0. split; auto. split; auto. right.
+    apply negb_true_iff, orb_false_iff in Ec. destruct Ec as [Hie Hr].
+    split; auto. split; auto. split; [eapply matches_destination_sound; eauto|].
+    exists r0. split; auto. intros G. apply is_response_iff in G. congruence.
+  - intros H. inversion H; subst.
+    apply receive_udp_error_sound in E. destruct E as [[-> Hx]|(pre & w1 & f1 & r1 & -> & -> & Hc)].
+    + left. split; auto. intros ->. cbn in Ct. inversion Ct; subst. contradiction.
+    + right. exists pre, w1, f1, r1. split; auto.
+  - intros H. inversion H.
+Qed.
